@@ -6,7 +6,7 @@
 //! the constructor or `set_length`, position by `set_position`, then `force_draw()`; the line is the
 //! first string written after the carriage return.  `ProgressState::fraction()` is read through
 //! `ProgressBar::update`.
-use indicatif::{ProgressBar, ProgressDrawTarget, ProgressStyle};
+use indicatif::{MultiProgress, ProgressBar, ProgressDrawTarget, ProgressStyle};
 use unicode_width::UnicodeWidthStr;
 use verif_harness::spy::{Spy, TOp};
 use verif_harness::*;
@@ -34,6 +34,8 @@ struct Case {
     len: Option<u64>,
     /// length given to the constructor (true) or by set_length/unset_length afterwards (false)
     len_by_ctor: bool,
+    /// resize stream: what happened on this bar before this draw ("" otherwise)
+    hist: String,
 }
 
 struct Obs {
@@ -61,7 +63,8 @@ impl Case {
     }
     fn desc(&self) -> String {
         format!(
-            "chars={:?} c={} template={:?} term_width={} pos={} len={:?} len_by_ctor={}",
+            "{}chars={:?} c={} template={:?} term_width={} pos={} len={:?} len_by_ctor={}",
+            self.hist,
             self.chars.concat(),
             self.c(),
             self.template(),
@@ -84,17 +87,36 @@ struct Rig {
     pb: ProgressBar,
     spy: Spy,
     is_bar: bool,
+    /// resize stream: the bar is the only member of this MultiProgress, which owns the terminal
+    _mp: Option<MultiProgress>,
 }
 
 fn rig(c: &Case) -> Result<Rig, String> {
+    rig_in(c, false)
+}
+
+/// `member`: the bar is added to a MultiProgress that draws to the recording terminal (the width is
+/// then asked through MultiState::width(), draw_target.rs) instead of owning the terminal itself
+fn rig_in(c: &Case, member: bool) -> Result<Rig, String> {
     let spy = Spy::new(c.tw(), u16::MAX);
     let spy2 = spy.clone();
     let (tpl, chars, len, by_ctor) = (c.template(), c.chars.concat(), c.len, c.len_by_ctor);
-    let pb = catch(move || {
-        let pb = ProgressBar::with_draw_target(
-            if by_ctor { len } else { Some(7) },
-            ProgressDrawTarget::term_like(Box::new(spy2)),
-        );
+    let (pb, mp) = catch(move || {
+        let (pb, mp) = if member {
+            let mp = MultiProgress::with_draw_target(ProgressDrawTarget::term_like(Box::new(spy2)));
+            let pb = mp.add(ProgressBar::new(7));
+            match (by_ctor, len) {
+                (true, Some(l)) => pb.set_length(l),
+                (true, None) => pb.unset_length(),
+                _ => {}
+            }
+            (pb, Some(mp))
+        } else {
+            (
+                ProgressBar::with_draw_target(if by_ctor { len } else { Some(7) }, ProgressDrawTarget::term_like(Box::new(spy2))),
+                None,
+            )
+        };
         pb.set_style(ProgressStyle::with_template(&tpl).unwrap().progress_chars(&chars));
         if !by_ctor {
             match len {
@@ -102,17 +124,27 @@ fn rig(c: &Case) -> Result<Rig, String> {
                 None => pb.unset_length(),
             }
         }
-        pb
+        (pb, mp)
     })?;
-    Ok(Rig { pb, spy, is_bar: matches!(c.tpl, Tpl::Bar(..)) })
+    Ok(Rig { pb, spy, is_bar: matches!(c.tpl, Tpl::Bar(..)), _mp: mp })
 }
 
 fn observe(r: &Rig, pos: u64) -> Result<Obs, String> {
+    observe_resized(r, pos, None)
+}
+
+/// `resize`: Some(w) changes the width of the recording terminal AFTER the position is set and the
+/// fraction is read (`set_position` and `update` draw themselves) and right BEFORE the observed
+/// `force_draw()`: the observed frame is the FIRST one drawn after the resize.
+fn observe_resized(r: &Rig, pos: u64, resize: Option<u16>) -> Result<Obs, String> {
     let pb = &r.pb;
     let frac = catch(|| {
         pb.set_position(pos);
         let mut fr = f32::NAN;
         pb.update(|st| fr = st.fraction());
+        if let Some(w) = resize {
+            r.spy.set_size(w, u16::MAX);
+        }
         r.spy.take();
         pb.force_draw();
         fr
@@ -661,7 +693,7 @@ fn gen_case(r: &mut Rng) -> Case {
         }
     };
     let pos = gen_pos(r, len, width / cw);
-    Case { chars, tpl, pos, len, len_by_ctor: r.chance(1, 2) }
+    Case { chars, tpl, pos, len, len_by_ctor: r.chance(1, 2), hist: String::new() }
 }
 
 fn sv(xs: &[&str]) -> Vec<String> {
@@ -739,6 +771,93 @@ fn wide_next_to_sized_fields(s: &mut Session, r: &mut Rng, n: usize) {
     }
 }
 
+/// Terminal RESIZE between two draws: draw -> `Spy::set_size` -> draw, growing and shrinking, on a
+/// plain bar (the bar owns the terminal) and on the only member of a MultiProgress.  The width handed
+/// to format_state is `ProgressDrawTarget::width()` / `Drawable::width()` = `TermLike::width()` asked
+/// at EVERY draw (draw_target.rs:134-142, 371-377), so every frame - the first one after a resize
+/// included - must be the model's line for the width the terminal has NOW (Coq case with the current
+/// width) and, oracle, exactly as wide as the terminal is now.  Seeded defect C13-6 (width cached from
+/// the previous draw) formats that one frame for the old width.
+fn resize_stream(s: &mut Session, r: &mut Rng, n_random: usize) {
+    let abc = sv(&["#", ">", "-"]);
+    let cjk = sv(&["進", "捗", "未"]);
+    // (chars, PRE, SUF, widths of the terminal at the successive draws, member of a MultiProgress)
+    let mut scen: Vec<(Vec<String>, String, String, Vec<u16>, bool)> = vec![
+        // the witnesses of the seeded defect: 80 -> 40 -> 100 on a plain bar, 60 -> 30 in a MultiProgress
+        (abc.clone(), "".into(), "  5/20".into(), vec![80, 40, 100], false),
+        (abc.clone(), "".into(), "  7/20".into(), vec![60, 30], true),
+        // growing first, by one column, to where the rest just fits / no longer fits, 2-column cells
+        (abc.clone(), "[".into(), "]".into(), vec![10, 11, 10, 120, 3, 2, 1, 50], false),
+        (abc.clone(), "[".into(), "]".into(), vec![10, 11, 10, 120, 3, 2, 1, 50], true),
+        (cjk.clone(), "進{".into(), "}".into(), vec![20, 21, 9, 8, 7, 40], false),
+        (cjk.clone(), "|".into(), "|".into(), vec![31, 30, 60, 5], true),
+        (abc.clone(), "".into(), "".into(), vec![1, 200, 1, 65535, 80], false),
+    ];
+    for i in 0..n_random {
+        let cw = if r.chance(1, 3) { 2 } else { 1 };
+        let nch = r.range(2, 6) as usize;
+        let chars = pick_chars(r, cw, nch);
+        let (p, sfx) = (gen_lit(r, 4), gen_lit(r, 4));
+        let k = r.range(2, 5);
+        let ws: Vec<u16> = (0..k).map(|_| if r.chance(1, 6) { r.range(1, 8) as u16 } else { r.range(1, 160) as u16 }).collect();
+        scen.push((chars, p, sfx, ws, i % 2 == 1));
+    }
+    for (chars, p, sfx, ws, member) in scen {
+        let len = 20u64;
+        let base = Case { chars, tpl: Tpl::Wide(p.clone(), sfx.clone(), ws[0]), pos: 0, len: Some(len), len_by_ctor: true, hist: String::new() };
+        let rg = match rig_in(&base, member) {
+            Ok(x) => x,
+            Err(e) => {
+                s.fail("panic", format!("building the bar panicked: {e}"), base.desc());
+                continue;
+            }
+        };
+        for (k, &tw) in ws.iter().enumerate() {
+            let mut c = base.clone();
+            c.tpl = Tpl::Wide(p.clone(), sfx.clone(), tw);
+            c.pos = (5 + 2 * k as u64).min(len);
+            c.hist = format!(
+                "resize[{}] terminal widths at the draws so far {:?}, now {} : ",
+                if member { "member of a MultiProgress" } else { "plain bar" },
+                &ws[..k],
+                tw
+            );
+            if k > 0 {
+                s.count(match tw.cmp(&ws[k - 1]) {
+                    std::cmp::Ordering::Less => "resize:shrink",
+                    std::cmp::Ordering::Greater => "resize:grow",
+                    std::cmp::Ordering::Equal => "resize:same-width",
+                });
+                s.count(if member { "resize:member-of-multi" } else { "resize:plain-bar" });
+            }
+            // the resize happens between the draws made by set_position / update and the observed
+            // force_draw: that frame is the first one after the resize; then one more draw at the
+            // same width (the frame after the glitch frame of C13-6 must be right as well)
+            let first = observe_resized(&rg, c.pos, if k > 0 { Some(tw) } else { None });
+            let again = observe(&rg, c.pos);
+            if let (Ok(a), Ok(b)) = (&first, &again) {
+                if a.text != b.text {
+                    s.fail(
+                        "resize-frame-differs",
+                        format!("first frame after the resize {:?}, the next frame at the same width and position {:?}", a.text, b.text),
+                        c.desc(),
+                    );
+                }
+            }
+            match first {
+                Err(e) => s.fail("panic", format!("drawing panicked / unexpected output: {e}"), c.desc()),
+                Ok(o) => {
+                    let g = oracle(s, &c, c.pos, &o);
+                    count_case(s, &c, c.pos, &g);
+                    s.count("coq_cases");
+                    s.count("resize:draws");
+                    s.case(coq_case(&c, c.pos, &o), c.desc(), g.as_ref().map_or(false, |g| g.cells > 0));
+                }
+            }
+        }
+    }
+}
+
 fn main() {
     let a = args();
     let header = "From IndModel Require Import Base BarGeom.\nOpen Scope N_scope.\n";
@@ -749,7 +868,7 @@ fn main() {
         "(list (list N) * N * bar_tpl * N * option N * N * list (N * N))%type",
         "bar_check",
     );
-    s.rule = "a ProgressBar on a recording terminal, template [{bar}] / [{bar:N}] / [{bar:^N}] / [{bar:>N}] (N 0..=400 and u16 boundaries) or PRE{wide_bar}SUF (terminal width 1..=120, rest fitting / not fitting), progress_chars of 2..=10 distinct clusters all 1 or all 2 columns wide (ASCII, block elements, a combining sequence, CJK, emoji), length None/0/boundaries (1,2,3,7,10,100,253,1000,2^24-1,2^24,2^24+1,2^32+7,2^64-2,2^64-1)/random given to the constructor or by set_length, position by set_position at 0, the ends, cell boundaries k*len/cells-1/0/+1 and random, then force_draw(); the observed fraction() bits and the rendered line are compared with the model, the oracle checks the property on them; sweeps run ascending positions on one bar (monotonicity) and only every k-th observation is also a Coq case. non-trivial = the bar has at least one cell; distinct = distinct case text".into();
+    s.rule = "a ProgressBar on a recording terminal, template [{bar}] / [{bar:N}] / [{bar:^N}] / [{bar:>N}] (N 0..=400 and u16 boundaries) or PRE{wide_bar}SUF (terminal width 1..=120, rest fitting / not fitting), progress_chars of 2..=10 distinct clusters all 1 or all 2 columns wide (ASCII, block elements, a combining sequence, CJK, emoji), length None/0/boundaries (1,2,3,7,10,100,253,1000,2^24-1,2^24,2^24+1,2^32+7,2^64-2,2^64-1)/random given to the constructor or by set_length, position by set_position at 0, the ends, cell boundaries k*len/cells-1/0/+1 and random, then force_draw(); a resize stream (draw, change the width of the recording terminal, draw again - growing and shrinking, 2..8 draws, on a plain bar and on the only member of a MultiProgress - every frame compared with the model and the oracle AT THE WIDTH THE TERMINAL HAS AT THAT DRAW); the observed fraction() bits and the rendered line are compared with the model, the oracle checks the property on them; sweeps run ascending positions on one bar (monotonicity) and only every k-th observation is also a Coq case. non-trivial = the bar has at least one cell; distinct = distinct case text".into();
     let mut r = Rng::new(a.seed);
 
     // ---------------- corpus: boundary cases and minimised past observations
@@ -764,6 +883,7 @@ fn main() {
         pos,
         len,
         len_by_ctor: true,
+        hist: String::new(),
     };
     // 7/10 of 10 cells: the binary32 product 6.9999998.. rounds to 7.0
     corpus.push(mk(&abc, Tpl::Bar(Some(10), 0), 7, Some(10)));
@@ -801,6 +921,8 @@ fn main() {
     for c in &corpus {
         run_case(&mut s, c);
     }
+    // terminal resizes between draws (corpus: the witnesses of seeded defect C13-6 first)
+    resize_stream(&mut s, &mut r, if a.thorough { 600 } else if a.extended { 400 } else { 60 });
     // a bare {bar:0} renders nothing at all (no line): oracle only
     {
         let spy = Spy::new(80, 100);
@@ -849,7 +971,7 @@ fn main() {
             for &l in &LENS {
                 let cells = w as usize / cw;
                 let ps: Vec<u64> = if l <= 100 { (0..=l + 1).collect() } else { boundary_positions(l, cells) };
-                let c = Case { chars: cs.clone(), tpl: Tpl::Bar(Some(w), 0), pos: 0, len: Some(l), len_by_ctor: true };
+                let c = Case { chars: cs.clone(), tpl: Tpl::Bar(Some(w), 0), pos: 0, len: Some(l), len_by_ctor: true, hist: String::new() };
                 sweep(&mut s, &c, &ps, sample);
             }
         }
@@ -868,6 +990,7 @@ fn main() {
                     pos: 0,
                     len: Some(100),
                     len_by_ctor: false,
+                    hist: String::new(),
                 };
                 sweep(&mut s, &c, &boundary_positions(100, cells), sample);
             }
@@ -896,7 +1019,7 @@ fn main() {
             };
             p = p.saturating_add(step);
         }
-        let c = Case { chars: cs, tpl: Tpl::Bar(Some(w), 0), pos: 0, len: Some(l), len_by_ctor: true };
+        let c = Case { chars: cs, tpl: Tpl::Bar(Some(w), 0), pos: 0, len: Some(l), len_by_ctor: true, hist: String::new() };
         sweep(&mut s, &c, &ps, sample);
     }
     let coq = s.dist.get("coq_cases").copied().unwrap_or(0);
